@@ -1056,7 +1056,7 @@ class SparseArray:
         elif axis == 1:
             if keepdims:
                 arr = SparseArray.from_rows(
-                    [SparseLogicalVector.from_set({0} if i.all() else {}, 1) for i in rows]
+                    [SparseLogicalVector.from_set({0} if i.all() else set(), 1) for i in rows]
                 )
             else:
                 arr = SparseLogicalVector.from_set({i for i, j in enumerate(rows) if j.all()}, len(rows))
@@ -1076,7 +1076,7 @@ class SparseArray:
         elif axis == 1:
             if keepdims:
                 arr = SparseArray.from_rows(
-                    [SparseLogicalVector.from_set({0} if i.any() else {}, 1) for i in rows]
+                    [SparseLogicalVector.from_set({0} if i.any() else set(), 1) for i in rows]
                 )
             else:
                 arr = SparseLogicalVector.from_set({i for i, j in enumerate(rows) if j.any()}, len(rows))
@@ -1141,7 +1141,7 @@ class SparseArray:
         rows = self.rows
         if axis is None:
             arr = max([i.max() for i in rows])
-            if keepdims: arr = SparseArray.from_rows([SparseVector.from_dict({0: arr}, 1)])
+            if keepdims: arr = SparseArray.from_rows([SparseVector.from_dict({0: arr} if arr else {}, 1)])
         elif axis == 0:
             keys = set()
             dtype = self.dtype
@@ -1184,7 +1184,7 @@ class SparseArray:
         rows = self.rows
         if axis is None:
             arr = min([i.min() for i in rows])
-            if keepdims: arr = SparseArray.from_rows([SparseVector.from_dict({0: arr}, 1)])
+            if keepdims: arr = SparseArray.from_rows([SparseVector.from_dict({0: arr} if arr else {}, 1)])
         elif axis == 0:
             dtype = self.dtype
             if dtype is bool:
@@ -2591,9 +2591,9 @@ class SparseLogicalVector:
     def has_negatives(self):
         return False
     
-    def negative_keys(self): set()
+    def negative_keys(self): return set()
     
-    def negative_index(self): [],
+    def negative_index(self): return [],
     
     def nonzero_index(self):
         return [*self.set],
